@@ -161,6 +161,11 @@ func (r rasterImage) Draw(context backend.Canvas, _ text.TextLayoutContext, conc
 	}
 
 	r.image.Rendering = string(imageRendering)
+	// the same image may be drawn several times (and the document written
+	// several times) : always hand out a reader positioned at the start
+	if seeker, ok := r.image.Content.(io.Seeker); ok {
+		seeker.Seek(0, io.SeekStart)
+	}
 	context.DrawRasterImage(r.image, concreteWidth, concreteHeight)
 }
 
